@@ -60,6 +60,8 @@ package cose
 // The registry of signature algorithms: keys extracted from init on every run;
 // the hash function per key (sighash) is the table in sig_alg.go init (ASSUMED).
 //@ registry cose.sigAlgorithms via cose.RegisterSignatureAlgorithm keys -7,-35,-36,-257,-258,-259,-37,-38,-39
+// the hash per signature algorithm that sighash() assumes is the one registered (crypto.SHA256 = 5, SHA384 = 6, SHA512 = 7)
+//@ registry-values cose.sigAlgorithms arg1.bound -7=5,-257=5,-37=5,-35=6,-258=6,-38=6,-36=7,-259=7,-39=7
 //@ spec macro sigregistered(alg) = alg == -7 || alg == -35 || alg == -36 || alg == -257 || alg == -258 || alg == -259 || alg == -37 || alg == -38 || alg == -39
 //@ func cose.SignatureAlgorithm.HashFunc
 //@   nopaths
@@ -93,6 +95,11 @@ package cose
 // key sizes are the table in the init functions (ASSUMED, listed) ----------------------
 //@ registry cose.encryptAlgorithms via cose.RegisterEncryptAlgorithm keys 1,2,3,10,11,12,13,30,31,32,33,-65534,-65533,-65532,-65531,-65530,-65529
 //@ registry cose.macAlgorithms via cose.RegisterMacAlgorithm keys 4,5,6,7,14,15,25,26
+// the constants the key-size macros below assume are the ones registered in init
+// (checked against the Register* calls on every run): key bits and AEAD flag
+//@ registry-values cose.encryptAlgorithms arg2 1=128,2=192,3=256,10=128,11=256,12=128,13=256,30=128,31=256,32=128,33=256,-65534=128,-65533=192,-65532=256,-65531=128,-65530=192,-65529=256
+//@ registry-values cose.encryptAlgorithms arg1 1=1,2=1,3=1,10=1,11=1,12=1,13=1,30=1,31=1,32=1,33=1,-65534=0,-65533=0,-65532=0,-65531=0,-65530=0,-65529=0
+//@ registry-values cose.macAlgorithms arg1 4=128,5=128,6=256,7=256,14=128,15=256,25=128,26=256
 //@ spec macro encregistered(alg) = alg == 1 || alg == 2 || alg == 3 || alg == 10 || alg == 11 || alg == 12 || alg == 13 || alg == 30 || alg == 31 || alg == 32 || alg == 33 || alg == -65534 || alg == -65533 || alg == -65532 || alg == -65531 || alg == -65530 || alg == -65529
 //@ spec macro macregistered(alg) = alg == 4 || alg == 5 || alg == 6 || alg == 7 || alg == 14 || alg == 15 || alg == 25 || alg == 26
 //@ spec macro enckeysize(alg) = ite(alg == 1 || alg == 10 || alg == 12 || alg == 30 || alg == 32 || alg == -65534 || alg == -65531, 16, ite(alg == 2 || alg == -65533 || alg == -65530, 24, 32))
